@@ -191,6 +191,8 @@ def run_case(case):
                 return bytes([self.i]) * rng.choice([1, 20, 256]) + bytes(token)
 
             def GetPublicKey(self):
+                if self.i % 2 == 1:
+                    return "KEY%d jos\u00e9@b\u00fcro-\u65e5\u672c" % self.i      # a text key whose comment is not ASCII (what the file-based signers return for such a .pub)
                 return b"KEY%d u@h" % self.i
         keys = [K(i + 1) for i in range(nkeys)]
         sim = simdev.SimDevice(rng=gen.rng_for("C02asim", case["seed"]), maxdata=4096)
